@@ -14,6 +14,7 @@ _lx = MindsDBLexer()
 
 
 NO_WRAP = re.compile(r'[a-zA-Z_][a-zA-Z_0-9]*')
+_ID_RE = re.compile([r if isinstance(r, str) else r.pattern for n, r in MindsDBLexer._rules if n == 'ID'][0])     # the live ID rule
 
 
 def ident_atom(p: str) -> bool:
@@ -27,7 +28,8 @@ def ident_atom(p: str) -> bool:
     if text[0] == '`':
         ok_shape = text == '`' + p + '`'
     else:
-        ok_shape = text == p
+        # printed bare: the text must be one ID lexeme of the live lexer (a part holding a blank, a line break, a dot, .. is not)
+        ok_shape = text == p and _ID_RE.fullmatch(p) is not None
     # decoded by the independent reader; C04/path_str shows the real decoder equals that reader on every text
     return ok_shape and split_path(text) == [p]
 
